@@ -74,7 +74,7 @@ def plan(tier, seed, func_mod="vp.props.C01"):
             if gl.is_reaction(cname):
                 pre += ["role in (0, 1, 3, 4, 6)"]
             if cname == "SCRG":
-                pre += ["ds in (0, 1, 3, 8)", "cs in (0, 3, 5, 7)", "role in (0, 4) or (ds == 0 and cs == 0)", "gi < 2", "not xa"]
+                pre += ["ds in (0, 1, 3, 8)", "cs in (0, 3, 5, 7)", "role in (0, 4) or (ds == 0 and cs == 0)", "gi < 2", "not xa", "el == 0 or (ds in (0, 8) and cs in (0, 7))"]
         elif kk == 4:
             pre += ["not xa", "el < 2 or cls == 0"]
         elif cname == "SCRG":
@@ -90,9 +90,9 @@ def plan(tier, seed, func_mod="vp.props.C01"):
         params["flip"] = "bool"
         pre = list(pr)
         if tier == "quick":
-            pre += {"star4": ["lig in (0, 1, 2)", "gi % 3 == 0", "order % 5 == 0 or order < 6", "chg in (0, 2)"],
+            pre += {"star4": ["lig in (0, 1)", "gi % 4 == 0", "order % 5 == 0 or order < 4", "chg in (0, 2)"],
                     "lonepair": ["lig in (0, 1)", "gi % 4 == 0", "order % 5 == 0", "chg in (0, 1)"],
-                    "dbond": ["sub in (0, 1, 4)", "order % 7 == 0 or order < 4", "chg in (0, 3)"],
+                    "dbond": ["sub in (0, 1, 4)", "order % 9 == 0 or order < 3", "chg in (0, 3)", "gi % 2 == 0"],
                     "ring4": ["chg in (0, 2)"], "sn2": ["gi < 3"]}.get(n, [])
         else:
             pre += {"star6": ["order % 11 == 0", "gi % 5 == 0", "lig in (0, 1, 3)", "chg in (0, 2)"],
